@@ -15,9 +15,30 @@ def goenv():
 
 
 def sh(cmd, cwd=None, env=None, timeout=None, check=False):
-    p = subprocess.run(cmd, cwd=cwd, env=env or goenv(), timeout=timeout, stdout=subprocess.PIPE, stderr=subprocess.STDOUT, text=True)
+    try:
+        p = subprocess.run(cmd, cwd=cwd, env=env or goenv(), timeout=timeout, stdout=subprocess.PIPE, stderr=subprocess.STDOUT, text=True)
+    except subprocess.TimeoutExpired as e:
+        if check:
+            raise
+        return 124, "timed out after %ss: %s\n%s" % (timeout, " ".join(cmd)[:300], (e.stdout or "")[-2000:] if isinstance(e.stdout, str) else "")
     if check and p.returncode != 0:
         raise RuntimeError("command failed: %s\n%s" % (cmd, p.stdout[-4000:]))
+    return p.returncode, p.stdout
+
+
+ALLOC_AS_LIMIT = 6 << 30
+
+
+def sh_limited(cmd, cwd=None, env=None, timeout=None, as_bytes=None):
+    import resource
+
+    def lim():
+        if as_bytes:
+            resource.setrlimit(resource.RLIMIT_AS, (as_bytes, as_bytes))
+    try:
+        p = subprocess.run(cmd, cwd=cwd, env=env or goenv(), timeout=timeout, stdout=subprocess.PIPE, stderr=subprocess.STDOUT, text=True, preexec_fn=lim)
+    except subprocess.TimeoutExpired:
+        return 124, "timed out after %ss" % timeout
     return p.returncode, p.stdout
 
 
@@ -153,7 +174,11 @@ class Check:
         rep = json.load(open(out))
         rep["Harnesses"] = rep.get("Harnesses") or []
         if not rep["Harnesses"]:
-            self.problems.append("no harness matched %s in %s" % (regex, pkg_pattern))
+            if gen and soft_trunc == "record":
+                # the generator emitted no harness of this kind for this schema (no applicable type): a stated gap, not a failure
+                self.not_covered.append({"harness": regex, "schema": label or pkg_pattern, "reason": "no applicable type in this schema (no harness generated)"})
+            else:
+                self.problems.append("no harness matched %s in %s" % (regex, pkg_pattern))
         ctx = dict(moddir=moddir, pkg_pattern=pkg_pattern, pkgdir=pkgdir, pkgname=pkgname, test_overlays=test_overlays, params=params, label=label or pkg_pattern, gen=gen)
         rep["_truncated"] = []
         for h in rep["Harnesses"]:
@@ -171,7 +196,7 @@ class Check:
                 continue
             self.runs.append(h)
             for pr in probs:
-                if soft_problem_rx and re.search(soft_problem_rx, pr):
+                if (soft_problem_rx and re.search(soft_problem_rx, pr)) or (soft_trunc == "record" and pr.startswith("unwind:")):
                     # a stated region the exploration does not cover (recorded, not a success and not an alarm)
                     self.not_covered.append({"harness": h["Name"], "schema": ctx["label"], "reason": pr.split("\n")[0][:300]})
                     continue
@@ -181,12 +206,16 @@ class Check:
             if expect_covers:
                 cov = h.get("Covers") or {}
                 if not cov and not (h.get("Violations") or []):
-                    self.problems.append("%s: vacuous (no cover point witnessed)" % h["Name"])
+                    if soft_trunc == "record":
+                        # under this bound no path reached a cover point: listed as not covered; a check in which NO harness reaches one is a failure (finish)
+                        self.not_covered.append({"harness": h["Name"], "schema": ctx["label"], "reason": "vacuous under this bound (no cover point witnessed)"})
+                    else:
+                        self.problems.append("%s: vacuous (no cover point witnessed)" % h["Name"])
         if max_models > 0 or any(h.get("Violations") for h in rep["Harnesses"]):
             self._native(rep["Harnesses"], ctx, max_models)
         return rep
 
-    def _go_test(self, ctx, casedir):
+    def _go_test(self, ctx, casedir, isolated=None):
         """builds the package's test binary with the harness overlays and runs it (no dependence on the package directory existing on disk)"""
         n = len(os.listdir(self.scratch.dir))
         ov = self.scratch.path("overlay_%d.json" % n)
@@ -197,13 +226,30 @@ class Check:
         if rc != 0 or not os.path.exists(binp):
             return rc or 1, txt
         env["VERIF_CASE_DIR"] = casedir
-        return sh([binp, "-test.run", "^TestVerifReplay$", "-test.count=1"], cwd=os.path.dirname(binp), env=env, timeout=1200)
+        rc, txt = sh([binp, "-test.run", "^TestVerifReplay$", "-test.count=1"], cwd=os.path.dirname(binp), env=env, timeout=1200)
+        # allocation counterexamples: one process each, under an address-space limit, so that a multi-gigabyte allocation ends that
+        # process ("out of memory") instead of exhausting the machine; such a death is itself the native confirmation
+        for name in isolated or []:
+            d1 = os.path.join(casedir, "iso_" + name)
+            os.makedirs(d1, exist_ok=True)
+            shutil.copy(os.path.join(casedir, "iso", name + ".case.json"), os.path.join(d1, name + ".case.json"))
+            env1 = dict(env)
+            env1["VERIF_CASE_DIR"] = d1
+            rc1, txt1 = sh_limited([binp, "-test.run", "^TestVerifReplay$", "-test.count=1"], cwd=os.path.dirname(binp), env=env1, timeout=300, as_bytes=ALLOC_AS_LIMIT)
+            op = os.path.join(d1, name + ".out.json")
+            if os.path.exists(op):
+                shutil.copy(op, os.path.join(casedir, name + ".out.json"))
+            elif "out of memory" in txt1 or "cannot allocate memory" in txt1:
+                json.dump({"harness": "", "events": [], "observed": None, "failed": ["alloc-bounded-by-input"], "panic": "", "problem": "",
+                           "note": "process died: runtime out of memory under RLIMIT_AS=%d" % ALLOC_AS_LIMIT}, open(os.path.join(casedir, name + ".out.json"), "w"))
+        return rc, txt
 
     def _native(self, harnesses, ctx, max_models):
         """native validation of sampled models of passing paths + replay of violations"""
         casedir = self.scratch.path("cases_%d" % len(os.listdir(self.scratch.dir)), "x")
         casedir = os.path.dirname(casedir)
         expect = {}
+        isolated = []
         n = 0
         for h in harnesses:
             models = h.get("Models") or []
@@ -216,14 +262,24 @@ class Check:
                 n += 1
                 json.dump(case_json(h["Name"], models[i], ctx["params"]), open(os.path.join(casedir, name + ".case.json"), "w"))
                 expect[name] = ("model", h, i)
+            per_key = {}
             for j, v in enumerate(h.get("Violations") or []):
+                k = (v.get("kind"), v.get("id"), (v.get("site") or "").split(":")[0])
+                per_key[k] = per_key.get(k, 0) + 1
+                if per_key[k] > 2:
+                    continue  # further counterexamples of the same obligation at the same site: the first two are replayed
                 name = "v%05d" % n
                 n += 1
-                json.dump(case_json(h["Name"], v.get("inputs") or [], ctx["params"]), open(os.path.join(casedir, name + ".case.json"), "w"))
+                if v.get("id") == "alloc-bounded-by-input":
+                    os.makedirs(os.path.join(casedir, "iso"), exist_ok=True)
+                    json.dump(case_json(h["Name"], v.get("inputs") or [], ctx["params"]), open(os.path.join(casedir, "iso", name + ".case.json"), "w"))
+                    isolated.append(name)
+                else:
+                    json.dump(case_json(h["Name"], v.get("inputs") or [], ctx["params"]), open(os.path.join(casedir, name + ".case.json"), "w"))
                 expect[name] = ("viol", h, j)
         if not expect:
             return
-        rc, txt = self._go_test(ctx, casedir)
+        rc, txt = self._go_test(ctx, casedir, isolated)
         if rc != 0:
             self.problems.append("native replay build/run failed for %s: %s" % (ctx["label"], txt[-1500:]))
             return
@@ -355,6 +411,10 @@ echo "not reproduced"; exit 0
             covers[h["Name"]] = sorted((h.get("Covers") or {}).keys())
         for m in self.mismatch:
             self.problems.append("engine/native mismatch: " + m)
+        if self.runs and not any((h.get("Covers") or h.get("Violations")) for h in self.runs):
+            self.problems.append("vacuous check: no harness witnessed a cover point")
+        if not any(h["Paths"] for h in self.runs):
+            self.problems.append("nothing explored: no path of any harness completed")
         if not self.samples:
             for h in self.runs:
                 self.samples.append({"harness": h["Name"], "paths": h["Paths"], "obligations": h.get("Asserts")})
